@@ -161,6 +161,34 @@ pub fn run_c18(args: &Args) -> Report {
             }
         });
     }
+    // commands with a lot of output on stdout / stderr (pipe capacity is 64 KiB): the run must still return
+    if args.shard == 0 {
+        for (k, cmdline) in [
+            "head -c 300000 /dev/zero | tr '\\0' 'e' >&2; echo done",
+            "head -c 300000 /dev/zero | tr '\\0' 'o'; echo; echo done",
+            "head -c 100000 /dev/zero | tr '\\0' 'e' >&2; head -c 100000 /dev/zero | tr '\\0' 'o'; echo; echo done",
+        ]
+        .iter()
+        .enumerate()
+        {
+            let src = format!("-- TXTPP#run {cmdline}\n~\n");
+            let p = Project { files: vec![("noisy.txt.txtpp".into(), src.into_bytes())], dirs: vec![], cmds: vec![], sources: vec!["noisy.txt.txtpp".into()], sig: vec![], expect_error: false };
+            for mode in ["build", "verify"] {
+                materialize(&p, &pdir);
+                let cfg = RunCfg { mode, trailing: true, recursive: false, threads: 2, inputs: vec![".".to_string()] };
+                let body = format!("# {} ; source: -- TXTPP#run {cmdline}\n", cfg.describe());
+                *current.lock().unwrap() = (std::time::Instant::now(), body.clone(), true);
+                let obs = run_impl(&pdir, &cfg, &log);
+                current.lock().unwrap().2 = false;
+                rep.evaluations += 1;
+                rep.sigs.insert(format!("noisy-command-{k}|{mode}|{}", obs.verdict));
+                let out = obs.after.files.get("noisy.txt").map(|b| b.len()).unwrap_or(0);
+                if mode == "build" && (obs.verdict != "ok" || out < 5) {
+                    rep.violation("oracle", &format!("C18: a terminating command with large output makes the run fail or lose output: verdict {}, {} output bytes", obs.verdict, out), &body);
+                }
+            }
+        }
+    }
     for i in 0..nrun {
         let structural = rng.chance(1, 3);
         let opts = GenOpts { allow_run: structural, error_pct: 10, ..GenOpts::default() };
